@@ -631,7 +631,7 @@ impl Check for C11 {
         }
     }
 
-    fn generate(&self, g: &mut Xo, _tier: Tier, _run: u64) -> Sc {
+    fn generate(&self, g: &mut Xo, _tier: Tier, run: u64) -> Sc {
         let len = match g.below(8) {
             0 => 0,
             1 => 1,
@@ -647,6 +647,8 @@ impl Check for C11 {
             }
             _ => g.urange(0, 12),
         };
+        // every fourth scenario sweeps the lengths 0..=640 densely (by run index)
+        let len = if run % 4 == 1 { ((run / 4) % 641) as usize } else { len };
         let rng = RngSpec::swarm(g);
         if g.coin() {
             let rate_bits = if g.chance(1, 3) {
